@@ -30,7 +30,7 @@ EXPLANATION = (
     "skipped only by the documented early returns (no owner, empty body, JSON ValueError), nothing escapes, keys are "
     "(c['aid'], c['iid']), dispatcher_connect adds the callback to the iterated set; (X1) with every listener call made "
     "a raise site of Exception, no path from the listener loop body leaves the function or the loop except through the "
-    "loop head, every iteration calls the listener with the event itself, and nothing escapes _callback_listeners."
+    "loop head, every iteration calls the listener with the event itself, and nothing escapes _callback_listeners. Added from a seeded fault: inside _update_subscriptions an AccessoryDisconnectedError may leave only from the request itself, so that subscribe() cannot take a failure to connect for a cut-off subscription request."
 )
 TRUSTED = [
     "HomeKitConnection.owner is an IpPairing and InsecureHomeKitProtocol.connection a HomeKitConnection (constructor "
